@@ -61,6 +61,6 @@ def create_acquisition(
     tod_shape = len(detector_dirs), len(samplings)
     proj = create_projection_operator(landscape, samplings, detector_dirs)
     hwp = HWPOperator(proj.out_structure())
-    polarizer = LinearPolarizerOperator.create(tod_shape, stokes=landscape.stokes)
+    polarizer = LinearPolarizerOperator.create(tod_shape, landscape.dtype, landscape.stokes)
     acquisition: AbstractLinearOperator = polarizer @ hwp @ proj
     return acquisition.reduce()
